@@ -97,9 +97,46 @@ SAME_MASK = [((L('i/'), W('n', 'int')), (L('r/'), W('n', 're', r'-?\d+'))),
              ((L('p/'), W('p', 'path')), (L('r/'), W('p', 're', '.+$')))]
 
 
+# two rules in one router: one enters a literal branch where the other has a wildcard, so that matching has to back out of
+# the literal branch after values were bound there
+PAIRS = [
+    ((L('files/'), W('name'), L('/raw')), (W('section'), L('/'), W('item', 'int'), L('/view'))),
+    ((L('files/'), W('name'), L('/raw')), (W('section'), L('/'), W('item'), L('/view'))),
+    ((L('a/'), W('x'), L('/b/'), W('y'), L('/c')), (W('p'), L('/'), W('q'), L('/b/'), W('r'), L('/d'))),
+    ((L('a/b/'), W('x', 'int')), (L('a/'), W('y'), L('/'), W('z', 're', '[a-z]+'))),
+    ((L('u/me')), (L('u/'), W('id'))),
+    ((L('f/'), W('p', 'path')), (L('f/x/'), W('b', 'int'), L('/end'))),
+    ((L('v/'), W('n', 'int'), L('/'), W('t')), (L('v/'), W('n', 'int'), L('-'), W('k'), L('/'), W('t'))),
+    ((W('a0'), L('/'), W('b')), (L('s/'), W('b'), L('/t'))),
+]
+PAIRS = [tuple(r if isinstance(r, tuple) and r and isinstance(r[0], tuple) else (r,) for r in p) for p in PAIRS]
+PAIR_SEGS = ['files', 'raw', 'view', '7', 'x', 'a', 'b', 'c', 'd', 'me', 'u', 'f', 'end', 'v', '3-k', 's', 't', '12']
+
+
+def pair_paths(pair, tier):
+    segs = [s for s in PAIR_SEGS if any(s in rr.pattern(r).replace('\r', '/').split('/') for r in pair)] + ['7', 'x', 'ab', '3-k']
+    segs = sorted(set(segs))
+    n = max(rr.pattern(r).count('/') + 1 for r in pair)
+    out = set()
+    for m in range(1, n + 1):
+        for combo in itertools.product(segs, repeat=m):
+            out.add('/'.join(combo))
+    for r in pair:
+        out.update(rr.instantiate(r, values_for(r))[:40])
+    return sorted(out)
+
+
+def renamed(rule, how):
+    """the same pattern written with other wildcard names ('other') or anonymous wildcards ('anon')"""
+    return tuple(a if a[0] == 'L' else W(None if (how == 'anon' and a[2] is not None) else (a[1] or 'w') + 'q%d' % i, *a[2:])
+                 for i, a in enumerate(rule))
+
+
 def shards(tier, seed):
     u = universe()
     out = [('rule', i, tier) for i in range(len(u))]
+    out += [('pair', i, tier) for i in range(len(PAIRS))]
+    out += [('hooked', i, tier) for i in range(0, len(u), 8)]
     out += [('order', i, tier) for i in range(len(SAME_MASK))]
     out.append(('extra', seed % 4, tier))
     return out
@@ -110,11 +147,11 @@ def bounds(tier, seed):
     return {'rules': [rr.default_text(r) for r in u], 'flavours': 'all', 'numeric_texts': NUM_VALUES}
 
 
-FLOORS = {'roundtrips': 3000, 'with_conversion': 300, 'with_anonymous': 100, 'adjacent_wildcards': 100, 'path_filter': 100}
+FLOORS = {'pair_roundtrips': 300, 'pair_backtracks': 20, 'hooked_roundtrips': 1000, 'roundtrips': 3000, 'with_conversion': 300, 'with_anonymous': 100, 'adjacent_wildcards': 100, 'path_filter': 100}
 
 
-def roundtrip(rmod, rule, text, path):
-    """None or (class, description)."""
+def roundtrip(rmod, rule, text, path, hook=None):
+    """None or (class, description).  hook = (rule text of a route hook on the same pattern, 'before' | 'after')"""
     vals = rr.match(rule, path.strip('/'))
     if vals is None:
         return 'nomatch', None
@@ -125,7 +162,11 @@ def roundtrip(rmod, rule, text, path):
     def h(**kw):
         return kw
     try:
+        if hook and hook[1] == 'before':
+            router.add_hook(hook[0], lambda *a, **kw: None)
         route = router.add(text, 'GET', h)
+        if hook and hook[1] == 'after':
+            router.add_hook(hook[0], lambda *a, **kw: None)
     except Exception as e:   # noqa
         return 'rule-rejected', f'rule text {text!r} rejected: {type(e).__name__}: {e}'
     try:
@@ -154,6 +195,94 @@ def roundtrip(rmod, rule, text, path):
     if back is None or [v for _, v in back] != [v for _, v in vals]:
         return 'other-values', f'url {url!r} built from {vals!r} matches with {back!r} (all wildcards)'
     return None
+
+
+def check_pair(res, rmod, pair, tier):
+    """Both rules in one router: whatever a path resolves to (real router), url() of the resolved route with the resolved
+    parameters must resolve to the same route with the same parameters; the resolution itself must agree with the
+    reference (rule selected, values)."""
+    c = res['counters']
+    texts = [rr.default_text(r) for r in pair]
+    for order in ((0, 1), (1, 0)):
+        router = rmod.RadiRouter()
+        routes = {}
+        for i in order:
+            try:
+                routes[i] = router.add(texts[i], 'GET', (lambda i: lambda **kw: i)(i))
+            except Exception as e:   # noqa  (the pairs are chosen to be compatible: a rejection is a harness error)
+                raise RuntimeError(f'rule pair {texts} rejected: {type(e).__name__}: {e}') from None
+        res['states'] += 1
+        for p in pair_paths(pair, tier):
+            ref = rr.resolve(list(pair), p)
+            try:
+                ep, err = router.resolve('/' + p, ['GET'])
+            except Exception as e:   # noqa
+                core.add_violation(res, {'kind': 'pair', 'pair': [[list(a) for a in r] for r in pair], 'order': list(order), 'path': p},
+                                   f'rules {texts} : resolve({p!r}) raised {type(e).__name__}: {e}', sig='pair:resolve-raised')
+                continue
+            res['transitions'] += 1
+            if ref is None and ep is None:
+                continue
+            bad = None
+            if (ref is None) != (ep is None):
+                bad = f'resolves to {"nothing" if ep is None else ep[0].route.rule!r}, reference: {"nothing" if ref is None else texts[ref[0]]!r}'
+            else:
+                idx, params, allv = ref
+                c['pair_roundtrips'] += 1
+                res['nontrivial'] += 1
+                other = pair[1 - idx]
+                # did the path run into the other rule first (shares its first segment's literal)?
+                if rr.match(other, p) is None and rr.pattern(other).split('/')[0] == p.split('/')[0]:
+                    c['pair_backtracks'] += 1
+                route = ep[0].route
+                if route is not routes[idx]:
+                    bad = f'resolves to {route.rule!r}, reference selects {texts[idx]!r}'
+                elif ep[1] != params or any(type(ep[1][k]) is not type(params[k]) for k in params):
+                    bad = f'resolves to {route.rule!r} with {ep[1]!r}, reference values {params!r}'
+                else:
+                    named = dict(ep[1])
+                    anon = [v for (k, v) in rr.match(pair[idx], p) if k is None]
+                    try:
+                        url = route.url(*anon, **named)
+                        ep2, err2 = router.resolve(url, ['GET'])
+                        if ep2 is None or ep2[0].route is not route or ep2[1] != named:
+                            bad = (f'matched {route.rule!r} with {named!r}; url() gives {url!r}, which resolves to '
+                                   f'{None if ep2 is None else (ep2[0].route.rule, ep2[1])!r}')
+                    except Exception as e:   # noqa
+                        bad = f'matched {route.rule!r} with {named!r}; url() / resolve raised {type(e).__name__}: {e}'
+            res['outcomes'].add('pair ' + ('ok' if bad is None else 'DIFF'))
+            if bad:
+                core.add_violation(res, {'kind': 'pair', 'pair': [[list(a) for a in r] for r in pair], 'order': list(order), 'path': p},
+                                   f'rules {[texts[i] for i in order]} in one router, path {p!r}: {bad}', sig='pair:' + bad.split(' ')[0])
+
+
+def check_hooked(res, rmod, rule):
+    """a route hook on the very pattern of the rule, written with other wildcard names, installed before / after the route"""
+    c = res['counters']
+    if not any(a[0] == 'W' for a in rule):
+        return
+    text = rr.default_text(rule)
+    for how in ('other', 'anon'):
+        try:
+            htext = rr.default_text(renamed(rule, how))
+        except ValueError:
+            continue
+        if htext is None or (how == 'anon' and htext == rr.default_text(renamed(rule, 'other'))):
+            continue
+        for when in ('after', 'before'):
+            res['states'] += 1
+            for p in paths_for(rule)[:60]:
+                r = roundtrip(rmod, rule, text, p, hook=(htext, when))
+                if r is not None and r[0] == 'nomatch':
+                    continue
+                res['transitions'] += 1
+                c['hooked_roundtrips'] += 1
+                res['nontrivial'] += 1
+                res['outcomes'].add('hooked ' + ('ok' if r is None else r[0]))
+                if r is not None:
+                    core.add_violation(res, {'ast': [list(a) for a in rule], 'text': text, 'path': p, 'hook': [htext, when]},
+                                       f'rule {text!r} with a route hook on {htext!r} installed {when} it, parameters from path {p!r}: {r[1]}',
+                                       sig='hooked:' + r[0])
 
 
 def check_rule(res, rmod, rule):
@@ -215,6 +344,14 @@ def work(spec):
                     v['sig'] = 'filter-order:' + (v['sig'] or '')
         sut.load(fresh=True)
         core.add_sample(res, {'same_mask_pair': [rr.default_text(r) for r in SAME_MASK[i]], 'orders': 2})
+    elif kind == 'pair':
+        check_pair(res, rmod, PAIRS[i], tier)
+        core.add_sample(res, {'rule_pair': [rr.default_text(r) for r in PAIRS[i]], 'paths': len(pair_paths(PAIRS[i], tier))})
+    elif kind == 'hooked':
+        u = universe()
+        for rule in u[i:i + 8]:
+            check_hooked(res, rmod, rule)
+        core.add_sample(res, {'hooked_rules': [rr.default_text(r) for r in u[i:i + 8]]})
     elif kind == 'rule':
         rule = universe()[i]
         check_rule(res, rmod, rule)
@@ -233,8 +370,21 @@ def replay(case):
     rmod = sut.sub('router.radirouter')
     for t in case.get('after_rules') or []:
         rmod.Route(t)
+    if case.get('kind') == 'pair':
+        pair = tuple(tuple(tuple(a) for a in r) for r in case['pair'])
+        res = core.new_result()
+        saved = pair_paths
+        try:
+            globals()['pair_paths'] = lambda pr, tier: [case['path']]
+            check_pair(res, rmod, pair, 'quick')
+        finally:
+            globals()['pair_paths'] = saved
+        vs = [v for v in res['violations'] if v['case']['order'] == case['order']]
+        return vs[0]['what'] if vs else None
     rule = tuple(tuple(a) for a in case['ast'])
-    r = roundtrip(rmod, rule, case['text'], case['path'])
+    r = roundtrip(rmod, rule, case['text'], case['path'], hook=tuple(case['hook']) if case.get('hook') else None)
+    if case.get('hook') and r is not None and r[0] != 'nomatch':
+        return f'rule {case["text"]!r} with a route hook on {case["hook"][0]!r} installed {case["hook"][1]} it matches path {case["path"]!r}; {r[1]}'
     if r is None or r[0] == 'nomatch':
         return None
     pre = f'after the rules {case["after_rules"]} were parsed in this process: ' if case.get('after_rules') else ''
